@@ -100,3 +100,26 @@ impl Trace {
         String::from_utf8_lossy(&self.buf[..end]).to_string()
     }
 }
+
+/// Cooperative scheduler for caller threads: after `sched_begin(n, seed)` each of the `n` threads calls
+/// `sched_join(id)` (blocks until all have joined), runs only while it holds the turn - which a PRNG
+/// seeded with `seed` hands over at every intercepted file call - and calls `sched_leave()` at its end.
+pub fn sched_begin(n: usize, seed: u64) {
+    let f: extern "C" fn(c_int, u64) = unsafe { std::mem::transmute(sym("simenv_sched_begin")) };
+    f(n as c_int, seed)
+}
+pub fn sched_join(id: usize) {
+    let f: extern "C" fn(c_int) = unsafe { std::mem::transmute(sym("simenv_sched_join")) };
+    f(id as c_int)
+}
+pub fn sched_leave() {
+    let f: extern "C" fn() = unsafe { std::mem::transmute(sym("simenv_sched_leave")) };
+    f()
+}
+/// Returns (context switches, scheduling points).
+pub fn sched_end() -> (u64, u64) {
+    let f: extern "C" fn(*mut u64) -> u64 = unsafe { std::mem::transmute(sym("simenv_sched_end")) };
+    let mut points = 0u64;
+    let sw = f(&mut points as *mut u64);
+    (sw, points)
+}
